@@ -260,6 +260,8 @@ func (c *BatchForm) Step(it *Interp, st *StepInfo) {
 		pre, post := st.Pre.Chains[ch], st.Post.Chains[ch]
 		if c.seenSeq[ch] == nil {
 			c.seenSeq[ch] = map[uint64]bool{}
+			// the chain's counters start where the genesis put them
+			c.lastNonce[ch], c.lastSeq[ch] = it.H.Cfg.StartBatchNonce, it.H.Cfg.StartSequence
 		}
 		preB := map[uint64]bool{}
 		for _, b := range pre.Batches {
